@@ -593,6 +593,8 @@ def expected_simple(sc, res):
         return {"same": True}
     if k == "zeroize_probe":
         return {"residue": False}
+    if k == "debug_pair":
+        return {"debug_same": True}
     if k == "hex":
         op = sc["op"]
         if op == "from_hex":
@@ -1098,6 +1100,29 @@ def fam_zeroize(rng):
     return out
 
 
+def fam_debug(rng):
+    """pairs of states of the same shape that differ only in secret data (C17, Debug side)"""
+    out = []
+    k1, k2 = bytes(range(32)).hex(), bytes(range(100, 132)).hex()
+    pairs = [
+        ({"mode": "hash"}, {"mode": "hash"}),
+        ({"mode": "keyed", "key_hex": k1}, {"mode": "keyed", "key_hex": k2}),
+        ({"mode": "derive", "context": "verif context one"}, {"mode": "derive", "context": "another context 2"}),
+        ({"mode": "derive_from_context_key", "key_hex": k1}, {"mode": "derive_from_context_key", "key_hex": k2}),
+    ]
+    for n, ups in ((0, []), (1, [1]), (64, [64]), (65, [64, 1]), (1024, [1024]), (1025, [1000, 25]), (5000, [2048, 2952]),
+                   (70000, [70000])):
+        for a, b in pairs:
+            for read in (0, 1, 64, 100):
+                if read and n not in (0, 1025):
+                    continue
+                sa = dict(a, input={"len": n, "pattern": "inc251"})
+                sb = dict(b, input={"len": n, "pattern": "xorshift", "seed": 7 + n})
+                out.append({"kind": "debug_pair", "a": sa, "b": sb, "updates": ups, "read": read,
+                            "chunk_counter": (n * 7) % 1000})
+    return out
+
+
 def fam_rayon_mmap(rng):
     # files that open, seek and read but may refuse mmap (sysfs / procfs); skipped by the driver when absent
     out = [{"kind": "mmap_special", "path": p} for p in ("/sys/kernel/btf/vmlinux", "/proc/self/maps",
@@ -1169,6 +1194,7 @@ FAMILIES = {
     "rayon_mmap": (fam_rayon_mmap, ("mmap", "rayon")),
     "platform": (fam_platform, ()),
     "zeroize": (fam_zeroize, ("zeroize",)),
+    "debug": (fam_debug, ()),
 }
 
 
@@ -1190,6 +1216,7 @@ TABLE = [
     (r"^crate::Hash::|^crate::HexError|^crate::HexErrorInner", ["hex"], ["default"], ()),
     (r"^crate::guts::", ["guts", "oneshot"], GENERAL, ()),
     (r"[Zz]eroize", ["zeroize"], ["default"], ()),
+    (r"Debug__fmt|::fmt$|Debug", ["debug"], ["default"], ()),
     (r"^crate::traits::", ["traits", "reset", "xof"], ["default"], ()),
     (r"^crate::io::|Hasher::update_reader", ["reader", "rayon_mmap", "incremental"], ["default"], ()),
     (r"^crate::join::|Hasher::update_rayon|Hasher::update_mmap", ["rayon_mmap", "incremental"], ["default"], ()),
